@@ -279,7 +279,8 @@ func pipelineBody(r *explore.Run, rep *report.R, sc string, maxRes int) {
 // ---- P&T -------------------------------------------------------------------
 
 type ptRes struct {
-	ready   bool // readiness check satisfied (status.phase == Ready)
+	ready   bool // every readiness check satisfied
+	met     int  // bit 0: status.phase == Ready (first check), bit 1: status.id set (last check)
 	outcome int  // 0 applied, 1 rejected as invalid, 2 render failure (required patch source missing)
 }
 
@@ -287,7 +288,10 @@ func ptBody(r *explore.Run, rep *report.R, sc string) {
 	n := 1 + r.Free(2, "n")
 	var rs []ptRes
 	for i := 0; i < n; i++ {
-		rs = append(rs, ptRes{ready: r.Bool(fmt.Sprintf("ready%d", i)), outcome: r.Free(3, fmt.Sprintf("outcome%d", i))})
+		// Two readiness checks per template; the provider may satisfy none,
+		// only the first, only the last, or both.
+		m := r.Free(4, fmt.Sprintf("readiness-checks-met%d", i))
+		rs = append(rs, ptRes{ready: m == 3, met: m, outcome: r.Free(3, fmt.Sprintf("outcome%d", i))})
 	}
 	initial := r.Free(2, "initial")
 	ssa := r.Bool("ssaClaim")
@@ -303,7 +307,10 @@ func ptBody(r *explore.Run, rep *report.R, sc string) {
 		t.Extra = func(ct *v1.ComposedTemplate) {
 			fp := "status.phase"
 			ms := "Ready"
-			ct.ReadinessChecks = []v1.ReadinessCheck{{Type: v1.ReadinessCheckTypeMatchString, FieldPath: fp, MatchString: ms}}
+			ct.ReadinessChecks = []v1.ReadinessCheck{
+				{Type: v1.ReadinessCheckTypeMatchString, FieldPath: fp, MatchString: ms},
+				{Type: v1.ReadinessCheckTypeNonEmpty, FieldPath: "status.id"},
+			}
 			if x.outcome == 1 {
 				ct.Base.Raw = []byte(strings.Replace(string(ct.Base.Raw), `"fixed":"v"`, `"fixed":"v","invalid":true`, 1))
 			}
@@ -356,14 +363,19 @@ func ptBody(r *explore.Run, rep *report.R, sc string) {
 	// The providers make the chosen resources ready.
 	now := make([]bool, n)
 	for i, x := range rs {
-		if !x.ready {
+		if x.met == 0 {
 			continue
 		}
 		for _, o := range s.All(xrh.KindFor(resNames[i]).GroupKind()) {
 			s.Mutate(simkube.KeyOf(o), func(u *unstructured.Unstructured) {
-				_ = unstructured.SetNestedField(u.Object, "Ready", "status", "phase")
+				if x.met&1 != 0 {
+					_ = unstructured.SetNestedField(u.Object, "Ready", "status", "phase")
+				}
+				if x.met&2 != 0 {
+					_ = unstructured.SetNestedField(u.Object, "id-1", "status", "id")
+				}
 			})
-			now[i] = true
+			now[i] = x.met == 3
 		}
 	}
 	for i := 0; i < 2; i++ {
